@@ -41,23 +41,46 @@ def reset():
     _REG.clear()
 
 
-def _int_consts(term, exclude):
-    seen, out = set(), []
+def _contains(term, targets, cache):
+    i = term.get_id()
+    if i in cache:
+        return cache[i]
+    r = any(term.eq(t) for t in targets) or any(_contains(c, targets, cache) for c in term.children())
+    cache[i] = r
+    return r
 
-    def visit(e):
-        if e.get_id() in seen:
-            return
-        seen.add(e.get_id())
+
+def _abstract_params(T, t0):
+    """parameters of a summand: the maximal integer-sorted subterms that do not contain the bound variable (index
+    expressions such as `lo + b`, sizes, skolem constants), in order of first occurrence.  Returns (params, canon)
+    where canon is T with the parameters replaced by canonical variables."""
+    params, pvars, cache, memo = [], [], {}, {}
+
+    def rec(e):
+        i = e.get_id()
+        if i in memo:
+            return memo[i]
         if z3.is_quantifier(e):
             raise core.Unsupported("quantifier inside a summand")
-        if z3.is_app(e):
-            if e.num_args() == 0 and e.sort().kind() == z3.Z3_INT_SORT and not z3.is_int_value(e) \
-                    and not any(e.eq(x) for x in exclude):
-                out.append(e)
-            for c in e.children():
-                visit(c)
-    visit(term)
-    return out
+        if e.sort().kind() == z3.Z3_INT_SORT and not z3.is_int_value(e) and not _contains(e, [t0], cache):
+            for k, p in enumerate(params):
+                if p.eq(e):
+                    memo[i] = pvars[k]
+                    return pvars[k]
+            v = z3.Int(f"p?sigma_{len(params)}")
+            params.append(e)
+            pvars.append(v)
+            memo[i] = v
+            return v
+        if z3.is_app(e) and e.num_args() > 0:
+            new_args = [rec(c) for c in e.children()]
+            r = e.decl()(*new_args) if any(not a.eq(b) for a, b in zip(new_args, e.children())) else e
+        else:
+            r = e
+        memo[i] = r
+        return r
+    canon = rec(T)
+    return params, pvars, canon
 
 
 class Sum:
@@ -89,11 +112,8 @@ def make(summand, n, hint="S"):
     finally:
         _depth[0] -= 1
     T = z3.simplify(T)
-    params = _int_consts(T, exclude=[t0])
-    pvars = [z3.Int(f"p?sigma_{k}") for k in range(len(params))]
-    # canonical text: parameters by order of first occurrence, own bound variable renamed to a depth-independent
-    # name (nested sums occur in T only through their function symbols, so there is nothing to capture)
-    canon = z3.substitute(T, *(list(zip(params, pvars)) + [(t0, _TC)]))
+    params, pvars, canon = _abstract_params(T, t0)
+    canon = z3.substitute(canon, (t0, _TC))
     key = canon.sexpr()
     sf = _REG.get(key)
     if sf is None:
